@@ -157,7 +157,7 @@ def gen_case(rng, tier, avoid):
     params['source'] = kind
     if data:
         params['data'] = data
-    return {'scenario': {'env': {'tz': gen.pick(rng, ['UTC', 'Asia/Kolkata'])}, 'history': ops}, 'params': params}
+    return {'scenario': {'env': {'tz': gen.pick(rng, ['UTC', 'Asia/Kolkata', 'America/New_York', 'Europe/Oslo', 'Pacific/Auckland'])}, 'history': ops}, 'params': params}
 
 
 def _n(shape):
